@@ -216,6 +216,20 @@ def growth_misc(rep):
             code = repr(e)
         rep.clause('X.help_exits_zero_' + name, code == 0, key='-h ' + name, what='-h -> %r' % (code,), own=False)
     rep.clause('X.readme_entry_points', ms.Solver.__name__ == 'Solver' and mg.Generator.__name__ == 'Generator', key='entry points', own=False)
+    # the create() factory functions build the same objects as the constructors
+    try:
+        import matchingproblems.solver.solver as mss
+        import matchingproblems.generator.generator as mgg
+        pth = impl.write_text('1 1 1\n1: 1\n1: 0: 1: 1\n1: 0: 1: 1\n')
+        s1 = mss.create(['-f', pth, '-na', '3'])
+        gd = os.path.join(common.subdir('create-%d' % os.getpid()), 'o')
+        with impl.quiet():
+            g1 = mgg.create(['-numinst', '1', '-o', gd, '-mp', 'ha', '-n1', '1', '-n2', '1', '-pmin', '1', '-pmax', '1', '-uq', '1'])
+        ok = isinstance(s1, mss.Solver) and isinstance(g1, mgg.Generator) and os.path.exists(os.path.join(gd, '0.txt'))
+        os.unlink(pth)
+        rep.clause('X.create_factories', ok, key='create()', what='create() returned %r, %r' % (type(s1).__name__, type(g1).__name__), own=False)
+    except BaseException as e:  # noqa
+        rep.clause('X.create_factories', False, key='create()', what='%s: %s' % (type(e).__name__, e), own=False)
     text = '2 2 1\n1: 1 2\n2: (1 2)\n1: 0: 1: 1\n2: 0: 1: 1\n1: 0: 2: 2: 1 2\n'
     path = impl.write_text(text)
     # msg / threads / timeLimit of solve() reach the back end object of every underlying solve
